@@ -99,4 +99,50 @@ theorem elitist_selects_best (keys : List Int) (order : List Nat) (mu : Nat)
 example : elitist [1, 3, 2, 0] 2 = [1, 3] ∧
     [1, 3, 2, 0].Pairwise (fun a b => [5, 1, 3, 1].getD a (0 : Int) ≤ [5, 1, 3, 1].getD b 0) := by decide
 
+
+/-! ### steady-state hypervolume monotonicity (specification level, uses the C13 lemmas) -/
+
+/-- **C14 (steady-state hypervolume never decreases)**: let `P` be the current population, `o` the
+offspring, and let the individual with index `i` of `P ++ [o]` be the one discarded.  If either
+(a) it is weakly dominated by another member of `P ++ [o]` — which is the case whenever
+`IndicatorBasedSelection` discards from a front of rank `≥ 2`, and for duplicates — or (b) its
+hypervolume contribution is at most the offspring's (least contributor of a single front,
+`HypervolumeIndicator` with a fixed reference point `r`, C13), then the dominated hypervolume
+of the next population is at least that of `P`. -/
+theorem steady_state_hv_monotone (m : Nat) (P : List Pt) (o r : Pt) (i : Nat)
+    (hr : r.length = m) (hP : ∀ p ∈ P, p.length = m) (ho : o.length = m)
+    (hi : i < (P ++ [o]).length)
+    (hcase : (∃ j, ∃ hj : j < (P ++ [o]).length, j ≠ i ∧ leAll ((P ++ [o])[j]) ((P ++ [o])[i]) = true) ∨
+             contribSpec (P ++ [o]) r i ≤ contribSpec (P ++ [o]) r P.length) :
+    hvSpec P r ≤ hvSpec ((P ++ [o]).eraseIdx i) r := by
+  have hQ : ∀ q ∈ P ++ [o], q.length = m := by
+    intro q hq
+    rcases List.mem_append.mp hq with h | h
+    · exact hP q h
+    · simp at h; rw [h]; exact ho
+  rcases hcase with ⟨j, hj, hne, hle⟩ | h
+  · have hmem : (P ++ [o])[j] ∈ (P ++ [o]).eraseIdx i :=
+      List.mem_eraseIdx_iff_getElem.mpr ⟨j, hj, hne, rfl⟩
+    have hsplit : P ++ [o] = (P ++ [o]).take i ++ (P ++ [o])[i] :: (P ++ [o]).drop (i + 1) := by
+      rw [List.getElem_cons_drop, List.take_append_drop]
+    have herase : (P ++ [o]).eraseIdx i = (P ++ [o]).take i ++ (P ++ [o]).drop (i + 1) :=
+      List.eraseIdx_eq_take_drop_succ ..
+    have h1 : hvSpec ((P ++ [o]).eraseIdx i) r = hvSpec (P ++ [o]) r := by
+      rw [herase] at hmem ⊢
+      have h2 := hvSpec_insert_dominated (r := r) hmem hle
+      rw [← hsplit] at h2
+      exact h2.symm
+    rw [h1]
+    exact hvSpec_mono_subset hr hQ (fun p hp => List.mem_append.mpr (Or.inl hp))
+  · unfold contribSpec at h
+    have e : (P ++ [o]).eraseIdx P.length = P := by
+      rw [List.eraseIdx_append_of_length_le (Nat.le_refl _)]; simp
+    rw [e] at h
+    omega
+
+example : hvSpec [[1, 3], [3, 1]] [4, 4] ≤ hvSpec ((([[1, 3], [3, 1]] : List Pt) ++ [[2, 2]]).eraseIdx 0) [4, 4] ∧
+    contribSpec (([[1, 3], [3, 1]] : List Pt) ++ [[2, 2]]) [4, 4] 0 ≤
+      contribSpec (([[1, 3], [3, 1]] : List Pt) ++ [[2, 2]]) [4, 4] 2 := by
+  decide
+
 end SharkVerif.C14
